@@ -122,6 +122,8 @@ open CoreDhcp
 #print axioms C17_D17_prefix_refuted
 #print axioms C11_builtin_preserve_mt
 #print axioms C12_builtin_preserve_mt
+#print axioms C11_builtin_preserve_echo_opts
+#print axioms C12_builtin_preserve_cid
 #print axioms C19_setup_wireOK
 #print axioms C19_setup_wireOK4
 #print axioms C19_staticroute_rejects_non_ipv4
